@@ -51,13 +51,15 @@ pub struct Section {
     pub thorough_only: bool,
     /// Compare `CaseOut::diff` across all schedules of the same inputs.
     pub differential: bool,
+    /// Upper limit on the input length for this section (two-level compositions: 3).
+    pub len_cap: usize,
 }
 
 pub const fn sec(name: &'static str, f: CaseFn) -> Section {
-    Section { name, f, thorough_only: false, differential: false }
+    Section { name, f, thorough_only: false, differential: false, len_cap: usize::MAX }
 }
 pub const fn sec_thorough(name: &'static str, f: CaseFn) -> Section {
-    Section { name, f, thorough_only: true, differential: false }
+    Section { name, f, thorough_only: true, differential: false, len_cap: 3 }
 }
 
 pub struct CaseRes {
@@ -68,6 +70,8 @@ pub struct CaseRes {
     pub diff: Option<u64>,
     pub faults: Vec<Fault>,
     pub pend_count: u32,
+    /// Event log of the scripted environment (only recorded under `--replay`).
+    pub trace: Vec<String>,
 }
 
 pub struct Tier {
@@ -79,7 +83,10 @@ pub struct Tier {
 /// Execute one case: the chooser is moved into a fresh `Env` for the duration of the case.
 pub fn exec_case(s: &Section, a: &[u8], t: &Tier, ch: &mut Chooser, want_params: bool) -> CaseRes {
     let env = Env::new(std::mem::replace(ch, Chooser::replay(vec![])));
-    let cx = Cx { env: env.clone(), a: a.to_vec(), max_len: t.max_len, thorough: t.thorough, want_params };
+    if want_params && trace_enabled() {
+        env.enable_trace();
+    }
+    let cx = Cx { env: env.clone(), a: a.to_vec(), max_len: t.max_len.min(s.len_cap), thorough: t.thorough, want_params };
     let r = catch(|| (s.f)(&cx));
     drop(cx);
     *ch = env.take_chooser();
@@ -96,7 +103,13 @@ pub fn exec_case(s: &Section, a: &[u8], t: &Tier, ch: &mut Chooser, want_params:
         }
     };
     let free_key = ch.trace.iter().filter(|p| !p.costly).map(|p| p.choice).collect();
-    CaseRes { choices: ch.choices(), free_key, params, observed, diff, faults, pend_count: env.pend_count.get() }
+    let trace = env.take_trace();
+    CaseRes { choices: ch.choices(), free_key, params, observed, diff, faults, pend_count: env.pend_count.get(), trace }
+}
+
+static TRACE: std::sync::atomic::AtomicBool = std::sync::atomic::AtomicBool::new(false);
+fn trace_enabled() -> bool {
+    TRACE.load(std::sync::atomic::Ordering::Relaxed)
 }
 
 type Rank = (usize, usize, Vec<usize>, Vec<u8>);
@@ -120,8 +133,9 @@ pub fn replay_value(prop: &str, s: &Section, a: &[u8], t: &Tier, choices: &[usiz
 
 /// Run one section: `par_map` over shards, deviation-bounded exploration inside each shard.
 pub fn run_section(prop: &str, s: &Section, shards: &[Vec<u8>], t: &Tier, cap_per_shard: u64) -> Stats {
+    let shards: Vec<&Vec<u8>> = shards.iter().filter(|a| prop == "C13" || a.len() <= s.len_cap).collect();
     let mut st = par_map(shards.len(), ncpu().min(16), |i| {
-        let a = &shards[i];
+        let a = shards[i];
         let mut st = Stats::new();
         let mut diffs: HashMap<Vec<usize>, (u64, Vec<usize>)> = HashMap::new();
         let es = explore(Some(t.k), cap_per_shard, |ch| {
@@ -212,9 +226,14 @@ pub fn replay(prop: &str, sections: &[Section], case: &Value) -> i32 {
         thorough: case["thorough"].as_bool().unwrap_or(false),
     };
     let mut ch = Chooser::replay(choices);
+    TRACE.store(true, std::sync::atomic::Ordering::Relaxed);
     let res = exec_case(s, &a, &t, &mut ch, true);
     println!("replay {prop}/{name} shard={a:?} params={} choices={:?}", res.params, res.choices);
     println!("  injected pendings: {}, observed hash: {:016x}", res.pend_count, res.observed);
+    println!("  event trace (scripted environment answers, `=>` = what the driver saw):");
+    for l in &res.trace {
+        println!("    | {l}");
+    }
     if res.faults.is_empty() {
         println!("  no fault observed");
         return 0;
